@@ -130,7 +130,7 @@ def obs_c05(o):
                 subs.append({'copy of the lattice': name, 'links': 'differ from the original'})
     queries = []
     limit = 6 if o.tier == 'quick' else 7
-    for t in itertools.islice(gen.subsets(o.cx.nG, limit, o.r, extra=24), 1500):
+    for t in itertools.islice(gen.subsets(o.cx.nG, limit, o.r, extra=24), 1500 if o.cx.nG <= 200 else 10):
         labs = [o.cx.objects[i] for i in t]
         if len(queries) % 4 == 3 and labs:
             labs = labs + labs[:1] + labs[-1:]          # repeated labels denote the same set
